@@ -283,6 +283,16 @@ func runC11(c *Ctx) {
 				if bi == 1 && k == 0 {
 					s = group.Ristretto255.NewScalar().SetUint64(1)
 				}
+				if bi == 1 && k == 1 {
+					// a canonical scalar at the top of the range: 2^252 + 1 (the order is 2^252 + 2774…), or order − 1
+					enc := make([]byte, 32)
+					enc[0], enc[31] = 1, 0x10
+					if i%2 == 0 {
+						s = group.Ristretto255.NewScalar().Neg(group.Ristretto255.NewScalar().SetUint64(1))
+					} else {
+						must(s.UnmarshalBinary(enc))
+					}
+				}
 				sb, _ := s.MarshalBinary()
 				blinds = append(blinds, sb)
 				bs = append(bs, s)
